@@ -1,5 +1,5 @@
 SPECIFICATION Spec
-CONSTANTS MaxOps = 3  Dev = {}  Kty = "oct"  ExportEvery = 1
+CONSTANTS MaxOps = 3  Dev = {}  Kty = "RSA"  ExportEvery = 16
 INVARIANT PublicClean
 INVARIANT PrivateOnPublicIsError
 INVARIANT NoPrivateGain
